@@ -459,6 +459,12 @@ pub async fn cases(w: &mut World, t: &Twin) -> Vec<Case> {
         let s = role("admin");
         let ok = w.banks[t.a0].oracle.accounts()[0];
         v.push(Case { name: "configure_bank_oracle".into(), ixs: vec![ix::configure_bank_oracle(g0k, s.pubkey(), a0, 3, ok, vec![ix::ro(ok)])], target: 0, signer_key: Some(s.pubkey()), signers: vec![s], entitled: vec!["admin"], subs: bank_admin_subs(0, 2) });
+        if let Some((s0, _s0b, _solb, _sa)) = t.staked {
+            // permissionless: copies the group's staked settings into one of its staked banks
+            let sk0 = w.banks[s0].key;
+            let rem: Vec<solana_sdk::instruction::AccountMeta> = w.banks[s0].oracle.accounts().into_iter().map(ix::ro).collect();
+            v.push(Case { name: "propagate_staked_settings".into(), ixs: vec![ix::propagate_staked_settings(g0k, sk0, rem)], target: 0, signer_key: None, signers: vec![], entitled: vec![], subs: vec![(0, "group->foreign group".into(), g1k), (1, "staked settings->foreign group's settings".into(), ix::staked_settings_key(&g1k)), (2, "bank->a bank that is not staked collateral".into(), a0)] });
+        }
         if t.staked.is_some() {
             let s = role("admin");
             let e = marginfi::instructions::StakedSettingsEditConfig { oracle: None, asset_weight_init: None, asset_weight_maint: None, deposit_limit: Some(u64::MAX - 7), total_asset_value_init_limit: None, oracle_max_age: None, risk_tier: None };
@@ -661,6 +667,21 @@ pub async fn run_c08(w: &mut World, m: &mut Mon, r: &mut R, t: &Twin) {
             m.r.distinct(&("sub", c.name.clone(), what.clone(), o.ok()));
             if o.ok() {
                 m.r.violate("C08", &format!("C08/matrix/{}/accepted-with-substitution/{}", c.name, what), format!("slot {} {} -> {}", slot, orig, repl));
+            }
+            // the foreign group together with its own settings account (coherent pair), the bank still ours
+            if what == "group->foreign group" {
+                if let Some((slot2, what2, repl2)) = c.subs.iter().find(|(_, w2, _)| w2.ends_with("foreign group's settings")) {
+                    let mut ixs2 = ixs.clone();
+                    if *slot2 < ixs2[c.target].accounts.len() {
+                        ixs2[c.target].accounts[*slot2].pubkey = *repl2;
+                        let o = w.probe(m, &ixs2, &sg).await;
+                        m.r.eval();
+                        m.r.count("C08.matrix_foreign_group_with_its_settings_cells");
+                        if o.ok() {
+                            m.r.violate("C08", &format!("C08/matrix/{}/accepted-for-foreign-group-and-its-settings", c.name), format!("{} and {}", what, what2));
+                        }
+                    }
+                }
             }
             // the foreign group together with its own role holders: the remaining accounts (bank,
             // settings, user account) still belong to this group, so nobody of that group is entitled
